@@ -46,8 +46,9 @@ namespace GeographicLib {
   }
 
   AuxAngle& AuxAngle::operator+=(const AuxAngle& p) {
-    // Do nothing if p.tan() == 0 to preserve signs of y() and x()
-    if (p.tan() != 0) {
+    // Do nothing if p is the zero angle to preserve signs of y() and x(); p =
+    // (+/-0, x < 0), a half turn, also has p.tan() == 0 but must be added.
+    if (p.tan() != 0 || p.x() < 0) {
       real x = _x * p._x - _y * p._y;
       _y = _y * p._x + _x * p._y;
       _x = x;
